@@ -33,7 +33,15 @@ import (
 	"verif/harness/vf"
 )
 
-func init() { Registry["C07"] = C07 }
+func init() {
+	Registry["C07"] = C07
+	Registry["C07tmp"] = func(tier string, args []string) int {
+		if sweep.IsWorker(args) {
+			return sweep.RunWorker(newC07TmpWorker(), args)
+		}
+		return 2
+	}
+}
 
 func starGraph(n int) gdbi.GraphInterface {
 	db := kvgraph.NewKVGraph(memkv.New())
@@ -226,12 +234,21 @@ func c07BodyNoCount(gi gdbi.GraphInterface, stmts []*gripql.GraphStatement, bufs
 }
 
 // tempStorageSweep: unscheduled runs through the unmodified pipeline.Run with a private work directory.
-func tempStorageSweep(run *vf.Run) (int, []string) {
-	n := 0
-	var samples []string
-	base := filepath.Join(harnessWorkDir(), "c07-tmp")
+// The runs happen in crash-isolated worker processes (pseudo check id "C07tmp"): a step that touches its
+// temporary store after the manager cleaned it up kills the process, which must be a verdict, not a
+// broken harness.
+type c07TmpCase struct {
+	size        int
+	name        string
+	stmts       []*gripql.GraphStatement
+	cancelAfter int
+}
+
+type c07TmpWorker struct{ cases []c07TmpCase }
+
+func newC07TmpWorker() *c07TmpWorker {
+	w := &c07TmpWorker{}
 	for _, size := range []int{0, 3, 50} {
-		gi := starGraph(size)
 		for _, q := range []struct {
 			name  string
 			stmts []*gripql.GraphStatement
@@ -239,54 +256,79 @@ func tempStorageSweep(run *vf.Run) (int, []string) {
 			{"V().distinct()", gripql.V().Distinct().Statements},
 			{"V().both().distinct(n)", gripql.V().Both().Distinct("n").Statements},
 			{"V().distinct().limit(2)", gripql.V().Distinct().Limit(2).Statements},
+			{"V().out().distinct().limit(2)", gripql.V().Out().Distinct().Limit(2).Statements},
 			{"V().out().distinct().count()", gripql.V().Out().Distinct().Count().Statements},
 		} {
 			for _, cancelAfter := range []int{-1, 0, 1} {
-				dir := filepath.Join(base, fmt.Sprintf("w%d", n))
-				os.MkdirAll(dir, 0o755)
-				pipe, err := gi.Compiler().Compile(q.stmts, nil)
-				if err != nil {
-					continue
-				}
-				ctx, cancel := context.WithCancel(context.Background())
-				res := pipeline.Run(ctx, pipe, dir)
-				rows := 0
-				if cancelAfter == 0 {
-					cancel()
-				}
-				deadline := time.After(60 * time.Second)
-				closed := false
-				for !closed {
-					select {
-					case _, ok := <-res:
-						if !ok {
-							closed = true
-							break
-						}
-						rows++
-						if rows == cancelAfter {
-							cancel()
-						}
-					case <-deadline:
-						closed = true
-						run.Report(vf.Violation{Sig: "temp-storage|no-answer|" + q.name, Detail: fmt.Sprintf("%s on star(%d) did not finish (unscheduled run)", q.name, size), Replay: q.name})
-					}
-				}
-				cancel()
-				n++
-				left, _ := os.ReadDir(dir)
-				if len(left) > 0 {
-					run.Report(vf.Violation{Sig: "temp-storage|left-behind|" + q.name, Detail: fmt.Sprintf("%s on star(%d), cancel after %d rows: %d entries left in the work directory after the result stream closed", q.name, size, cancelAfter, len(left)), Replay: q.name})
-				}
-				if len(samples) < 2 {
-					samples = append(samples, fmt.Sprintf("pipeline.Run %s on star(%d), client cancel after %d rows: work dir empty afterwards", q.name, size, cancelAfter))
-				}
-				os.RemoveAll(dir)
+				w.cases = append(w.cases, c07TmpCase{size, q.name, q.stmts, cancelAfter})
 			}
 		}
 	}
-	os.RemoveAll(base)
-	return n, samples
+	return w
+}
+
+func (w *c07TmpWorker) N() int { return len(w.cases) }
+func (w *c07TmpWorker) Describe(i int) string {
+	c := w.cases[i]
+	return fmt.Sprintf("pipeline.Run %s on star(%d), client cancel after %d rows", c.name, c.size, c.cancelAfter)
+}
+
+func (w *c07TmpWorker) Item(idx int, emit func(vf.Violation), st sweep.Stats, sample func(string)) {
+	c := w.cases[idx]
+	gi := starGraph(c.size)
+	dir := filepath.Join(harnessWorkDir(), "c07-tmp", fmt.Sprintf("w%d", idx))
+	os.MkdirAll(dir, 0o755)
+	defer os.RemoveAll(dir)
+	pipe, err := gi.Compiler().Compile(c.stmts, nil)
+	if err != nil {
+		return
+	}
+	st["runs"]++
+	ctx, cancel := context.WithCancel(context.Background())
+	res := pipeline.Run(ctx, pipe, dir)
+	rows := 0
+	if c.cancelAfter == 0 {
+		cancel()
+	}
+	deadline := time.After(60 * time.Second)
+	closed := false
+	for !closed {
+		select {
+		case _, ok := <-res:
+			if !ok {
+				closed = true
+				break
+			}
+			rows++
+			if rows == c.cancelAfter {
+				cancel()
+			}
+		case <-deadline:
+			closed = true
+			emit(vf.Violation{Sig: "temp-storage|no-answer|" + c.name, Detail: w.Describe(idx) + ": did not finish (unscheduled run)", Replay: c.name})
+		}
+	}
+	cancel()
+	// upstream steps may still be winding down: give them a moment so that a late use of the cleaned-up
+	// temporary store shows up as a crash of this worker rather than being cut off by its exit
+	time.Sleep(20 * time.Millisecond)
+	left, _ := os.ReadDir(dir)
+	if len(left) > 0 {
+		emit(vf.Violation{Sig: "temp-storage|left-behind|" + c.name, Detail: fmt.Sprintf("%s: %d entries left in the work directory after the result stream closed", w.Describe(idx), len(left)), Replay: c.name})
+	}
+	if idx%15 == 0 {
+		sample(w.Describe(idx) + ": work dir empty afterwards")
+	}
+}
+
+func tempStorageSweep(run *vf.Run) (int, []string) {
+	w := newC07TmpWorker()
+	res := sweep.Run(run, "C07tmp", run.Tier, w, time.Now().Add(10*time.Minute), 0, func(idx int, stderr string, hang bool) {
+		run.Report(vf.Violation{Sig: "temp-storage|process-died|" + w.cases[idx].name + "|" + sweep.PanicSite(stderr),
+			Detail: fmt.Sprintf("%s: the process died: %s", w.Describe(idx), sweep.PanicSite(stderr)), Replay: w.cases[idx].name})
+	})
+	os.RemoveAll(filepath.Join(harnessWorkDir(), "c07-tmp"))
+	return res.Stats["runs"], res.Samples
 }
 
 // C07 runs the check.
